@@ -851,6 +851,14 @@ pub fn generate_c10(args: &Args, out: &mut Out) {
             format!("{{ $61 {} $61 {} }}", n("1e1"), n("9")),
             format!("[ {} ]", n("1e0")),
             format!("[ {} ]", n("0.5")),
+            // values one of which is, once canonical, a proper beginning of the other
+            "{ }".into(),
+            format!("{{ $61 {} }}", n("1")),
+            format!("{{ $62 {} $61 {} }}", n("2"), n("1.0")),
+            format!("{{ $61 {} $62 {} $63 n }}", n("1e0"), n("2")),
+            "[ ]".into(),
+            format!("[ {} {} ]", n("1e0"), n("2")),
+            format!("[ {} {} n ]", n("1"), n("2.0")),
             "n".into(),
             "$61".into(),
         ]
@@ -874,6 +882,25 @@ pub fn generate_c10(args: &Args, out: &mut Out) {
         out.case_str(&format!("kk | {} | {}", s, value_str(&w)));
         let w2 = respell_value(&mut r, &w);
         out.case_str(&format!("kk | {} | {}", value_str(&w), value_str(&w2)));
+    }
+    // the same under 120..140 levels of arrays and one-member objects (a canonicalization that changes method
+    // beyond some depth has to agree with itself above it)
+    for _ in 0..(if full { 400 } else { 60 }) {
+        let mut r = rng.fork();
+        let n = r.range(2, 4);
+        let ents: Vec<String> = (0..n).map(|_| format!("$61 {}", r.pick(&dup_vals))).collect();
+        let mut s = format!("{{ {} $62 #{} }}", ents.join(" "), hex_str("1.50"));
+        let depth = *r.pick(&[1usize, 100, 126, 127, 128, 129, 140]);
+        for _ in 0..depth {
+            s = if r.chance(1, 2) { format!("[ {s} ]") } else { format!("{{ $6b {s} }}") };
+        }
+        out.case_str(&format!("k | {s}"));
+        let t: Vec<&str> = toks(&s);
+        let (v, _) = dec_value(&t);
+        let w = respell_value(&mut r, &v);
+        out.case_str(&format!("kk | {} | {}", s, value_str(&w)));
+        drop_deep(v);
+        drop_deep(w);
     }
     // wide objects (33..90 members) with repeated names, against a shuffled copy
     for _ in 0..(if full { 1500 } else { 150 }) {
